@@ -7,6 +7,6 @@ d=$(mktemp -d /dev/shm/klongpy-confirm-XXXXXX)
 rsync -a --exclude .git --exclude '__pycache__' /repo/ "$d/"
 echo "== demo on unchanged tree"; ( cd /tmp && PYTHONPATH=/repo timeout 300 /venv/bin/python $src/demo.py >/tmp/confirm-$name-base.log 2>&1 ); echo "exit=$?"
 ( cd "$d" && patch -p1 -s < $src/patch.diff ) || { echo "PATCH FAILED"; rm -rf "$d"; exit 9; }
-echo "== suite with patch"; ( cd "$d" && PYTHONPATH="$d" /venv/bin/python -m pytest -q -p no:cacheprovider --timeout=900 -n 8 -W ignore 2>&1 | tail -3 )
+echo "== suite with patch"; ( cd "$d" && PYTHONPATH="$d" /venv/bin/python -m pytest -q -p no:cacheprovider --timeout=900 -n 8 -W ignore 2>&1 | grep -E "^FAILED|passed|failed" | tail -5 )
 echo "== demo with patch"; ( cd /tmp && PYTHONPATH="$d" timeout 300 /venv/bin/python $src/demo.py >/tmp/confirm-$name-mut.log 2>&1 ); echo "exit=$?"; tail -3 /tmp/confirm-$name-mut.log
 rm -rf "$d"
